@@ -33,12 +33,23 @@ Definition pre (o : op) (b : buffer) : bool :=
   | OMoveTo i => (0 <=? i) && (if have_out b then i <=? zlen (out b) + (n - idx b) else i <=? n)
   | OSwap => have_out b
   | OClearOut | ORemoveOut _ | OClearPos | OPropagate | OReverse | ORevClusters => negb (have_out b)
-  | OSetFlags _ s e _ from_out =>
-      (0 <=? s) && (if from_out && have_out b then (s <=? zlen (out b)) && (idx b <=? e) else true)
+  | OSetFlags _ s e interior from_out =>
+      (0 <=? s) && (if from_out then
+                      if have_out b then (s <=? zlen (out b)) && (idx b <=? e)
+                      else negb interior || (s <=? Z.min e n)       (* start <= end, implicit upstream *)
+                    else true)
   | OUnsafeBreak s _ | OUnsafeConcat s _ | OTatweel s _ => 0 <=? s
-  | OUnsafeBreakOut s e | OUnsafeConcatOut s e =>
+  | OUnsafeBreakOut s e =>
+      (0 <=? s) && (if have_out b then (s <=? zlen (out b)) && (idx b <=? e) else s <=? Z.min e n)
+  | OUnsafeConcatOut s e =>
       (0 <=? s) && (if have_out b then (s <=? zlen (out b)) && (idx b <=? e) else true)
-  | OShiftFwd _ | ORevRange _ _ => false     (* internal helpers: tied by correspondence only *)
+  (* shiftForward: upstream asserts have_output *)
+  | OShiftFwd k => have_out b && (0 <=? k)
+  (* reverseRange(s, e) without output: the whole buffer, or a range of glyphs of one cluster (what the callers
+     reverse after merging the clusters of the range) *)
+  | ORevRange s e =>
+      negb (have_out b) && (0 <=? s) && (s <=? e) && (e <=? n)
+      && (((s =? 0) && (e =? n)) || forallb (fun g => cl g =? cl (nth (Z.to_nat s) (info b) g0)) (slice s e (info b)))
   end.
 
 (* ---- C01 statements on one step ---- *)
